@@ -289,3 +289,24 @@ func init() {
 func init() {
 	debugRules["sibcodec"] = func(c *Ctx, r *Report) { ruleCodecSiblings(c, r, "") }
 }
+
+func init() {
+	debugCmds["edges"] = func(c *Ctx) {
+		seen := map[string]bool{}
+		for _, fn := range c.modFuncs {
+			for _, b := range fn.Blocks {
+				for _, ins := range b.Instrs {
+					if ci, ok := ins.(ssa.CallInstruction); ok {
+						if cal := ci.Common().StaticCallee(); cal != nil && c.InModule(cal) {
+							k := FnName(cal) + "\t" + FnName(fn)
+							if !seen[k] {
+								seen[k] = true
+								fmt.Println(k)
+							}
+						}
+					}
+				}
+			}
+		}
+	}
+}
